@@ -899,7 +899,7 @@ pub fn run_check(ctx: &Ctx) -> i32 {
     ev.assume("cryptographic hardness (forging a signature / MAC, colliding a hash) is assumed, not enumerated");
     ev.assume("invalid credentials: those expressible with the repo's public certificate generators (look-alike signer, wrong operational key, validity window, different root) crossed with the attacker moves, plus the single-defect certificate catalog of C19 (harness-side certificate writer) presented untouched by either side");
     ev.assume("a session held by the initiator only is reported as a violation; a session held by the responder only (final status lost or damaged) is what the property allows");
-    if executed == 0 || both == 0 || none == 0 {
+    if report.violations.is_empty() && (executed == 0 || both == 0 || none == 0) {
         eprintln!("MACHINERY: vacuous C01 run (executed {}, both {}, none {})", executed, both, none);
         return 2;
     }
